@@ -23,7 +23,10 @@ def _poly(a):
     if a.get("clockwise"):
         pts = pts[::-1]
     dx, dy = a.get("shift", [0.0, 0.0])
-    return [[p[0] + dx, p[1] + dy] for p in pts]
+    pts = [[p[0] + dx, p[1] + dy] for p in pts]
+    if a.get("ints"):  # an outline typed in whole metres: every coordinate a Python int (the tool then works on an integer array)
+        pts = [[int(round(p[0])), int(round(p[1]))] for p in pts]
+    return pts
 
 
 def _inside_convex(pts, p, tol):
@@ -94,6 +97,12 @@ def _rowwise_check(a):
     pts = _poly(a)
     s = a["spacing"]
     nogo = a.get("nogo")
+    if a.get("two_zones"):  # two rectangular zones side by side inside a rectangular lot, listed left-to-right or right-to-left (a row at rotation 0 crosses both)
+        x0, y0 = min(p[0] for p in pts), min(p[1] for p in pts)
+        w_, h_ = max(p[0] for p in pts) - x0, max(p[1] for p in pts) - y0
+        left = [[x0 + 0.15 * w_, y0 + 0.4 * h_], [x0 + 0.3 * w_, y0 + 0.4 * h_], [x0 + 0.3 * w_, y0 + 0.65 * h_], [x0 + 0.15 * w_, y0 + 0.65 * h_]]
+        right = [[q[0] + 0.5 * w_, q[1]] for q in left]
+        nogo = [right, left] if a["two_zones"] == "far-first" else [left, right]
     if a.get("zone"):  # a convex no-go zone strictly inside the lot: the outline shrunk about its centroid
         cx, cy = sum(p[0] for p in pts) / len(pts), sum(p[1] for p in pts) / len(pts)
         nogo = [[[cx + a["zone"] * (p[0] - cx), cy + a["zone"] * (p[1] - cy)] for p in pts]]
@@ -128,7 +137,7 @@ def _rowwise_check(a):
         if nogo:
             # the lot without its zones first: a failure of the plain generator (non-termination, exception) is reported as such, so that the zone clauses
             # are judged only on lots the plain generator handles (with zones the same row mix-up surfaces as ValueError in less_than)
-            ok0, d0 = _rowwise_check({k: v for k, v in a.items() if k not in ("zone", "nogo", "perimeter", "sweep")} | {"check_translation": False})
+            ok0, d0 = _rowwise_check({k: v for k, v in a.items() if k not in ("zone", "two_zones", "nogo", "perimeter", "sweep")} | {"check_translation": False})
             if not ok0 and (d0.get("signature", "").startswith("no-termination/") or d0.get("signature", "").startswith("exception/")):
                 d0["why"] += " (the lot without its no-go zone)"
                 return False, d0
@@ -241,7 +250,7 @@ def _rowwise_check(a):
                 on_outline = abs(extent / s - round(extent / s)) < 1e-6 or all(degenerate_row(p) for p in diff)
                 return False, {"why": "translating the lot does not translate the field rigidly", "n": [len(f1), len(f2)], "outline": pts, "translate": t, "rotation_deg": a.get("rot_deg", 0.0),
                                "spacing": s, "differing_boreholes": diff[:6],
-                               "signature": "translation/" + ("rows-that-meet-the-outline-degenerately-differ" if on_outline else "ordinary-rows-differ") + ("/count" if len(f1) != len(f2) else "/positions")
+                               "signature": "translation/" + ("rows-that-meet-the-outline-degenerately-differ" if on_outline else ("isolated-boreholes-differ" if len(diff) <= 4 else "ordinary-rows-differ")) + ("/count" if len(f1) != len(f2) else "/positions")
                                + ("/with-no-go-zone" if nogo else "")}
         # the rotation sweep keeps the densest field
         if a.get("sweep"):
@@ -304,12 +313,19 @@ _RW_FIXED = [
     {"kind": "regular", "n": 6, "r": 40.0, "spacing": 10.0, "rot_deg": 30.0},
     {"kind": "rect", "w": 10.0, "h": 50.0, "spacing": 10.0, "rot_deg": 0.0, "shift": [10.0, 10.0]},      # a lot exactly one spacing wide: two columns
     {"kind": "rect", "w": 25.0, "h": 75.0, "spacing": 25.0, "rot_deg": 0.0},
-    {"kind": "rect", "w": 34.0, "h": 17.0, "spacing": 17.0, "rot_deg": 0.0, "shift": [33.3, 0.0]},      # recorded finding: a lot exactly one spacing high -> ZeroDivisionError
+    {"kind": "rect", "w": 34.0, "h": 17.0, "spacing": 17.0, "rot_deg": 0.0, "shift": [33.3, 0.0]},      # D20 (fixed): a lot exactly one spacing high raised ZeroDivisionError
+    {"kind": "rect", "w": 50.0, "h": 60.0, "spacing": 10.0, "rot_deg": 0.0, "shift": [33.0, 0.0]},      # D20 (fixed): 6 rows 12 m apart instead of 7 rows 10 m apart
+    {"kind": "rect", "w": 25.0, "h": 5.0, "spacing": 12.5, "rot_deg": 0.0, "shift": [33.0, 0.0]},       # recorded finding: a lot narrower than the spacing -> ZeroDivisionError
     {"kind": "regular", "n": 9, "r": 80.0, "spacing": 25.0, "rot_deg": 0.0, "zone": 0.5, "check_translation": False},  # recorded finding: a row through a vertex of the zone -> boreholes inside the zone
     {"kind": "rect", "w": 100.0, "h": 60.0, "spacing": 10.0, "rot_deg": 0.0, "shift": [10.0, 10.0], "zone": 0.37, "perimeter": 0.8, "sweep": [15.0, -45.0, 45.0]},  # zones + perimeter + sweep history
     {"kind": "pts", "pts": [[0.0, 10.0], [70.0, 0.0], [110.0, 45.0], [60.0, 90.0], [5.0, 60.0]], "spacing": 10.0, "rot_deg": 15.0, "zone": 0.4, "perimeter": 0.6},
     {"kind": "regular", "spacing": 25.0, "rot_deg": 15.0, "shift": [33.3, 0.0], "n": 10, "r": 30.0, "phase": 0.3, "zone": 0.4, "sweep": [15.0, -45.0, 0.0], "perimeter": 0.8},  # D18 (fixed): no rotation yields a borehole
     {"kind": "regular", "spacing": 25.0, "rot_deg": 60.0, "n": 10, "r": 30.0, "phase": 0.0, "zone": 0.25},  # recorded finding: with a zone, the lot touching the y-axis is filled differently from its translates
+    {"kind": "regular", "spacing": 25.0, "rot_deg": 60.0, "n": 7, "r": 30.0, "phase": 0.0},  # recorded finding: one borehole on the outline placed 1 m away after a translation
+    {"kind": "rect", "w": 100.0, "h": 60.0, "spacing": 7.5, "rot_deg": 0.0, "shift": [10.0, 10.0], "ints": True},       # outline typed in whole metres, non-integer spacing
+    {"kind": "rect", "w": 100.0, "h": 60.0, "spacing": 10.0, "rot_deg": 0.0, "shift": [10.0, 10.0], "two_zones": "far-first", "check_translation": False},  # a row crosses two zones, listed far zone first
+    {"kind": "rect", "w": 100.0, "h": 60.0, "spacing": 10.0, "rot_deg": 15.0, "shift": [10.0, 10.0], "two_zones": "near-first", "ints": True, "check_translation": False},
+    {"kind": "rect", "spacing": 12.5, "rot_deg": 0.0, "shift": [33.3, 0.0], "w": 17.0, "h": 102.0, "ints": True, "two_zones": "far-first", "check_translation": False},  # recorded finding: borehole outside a narrow lot with two zones
 ]
 
 
@@ -355,12 +371,17 @@ def _rowwise_gen(rng):
             a["sweep"] = [15.0, rng.choice([-90.0, -45.0]), rng.choice([0.0, 90.0])]
     if rng.random() < 0.25:
         a["perimeter"] = rng.choice([0.6, 0.8, 1.0])
+    if kind == "rect" and rng.random() < 0.3:
+        a["ints"] = True
+        a["spacing"] = rng.choice([7.5, 12.5, a["spacing"]])
+        if "zone" not in a and rng.random() < 0.5:
+            a.update(two_zones=rng.choice(["far-first", "near-first"]), check_translation=False)
     return a
 
 
 native(f"{RW}:gen_borehole_config", _rowwise_check, _rowwise_gen, None,
        bound="real gen_borehole_config / field_optimization_fr on convex outlines with 3..12 vertices (rectangles, regular polygons, random sheared convex polygons; both orientations; touching one or both axes or "
-             "shifted), spacings 5..25 m, rotations -90..89.5 deg, sweeps of 5/15 deg: termination (8 s CPU per call; a terminating call takes under 0.2 s), inside the outline (1e-6 m per metre of lot extent), spacing, rectangle lattice count, translation covariance, densest rotation; in about a third of the cases a convex no-go zone (the outline shrunk about its centroid by 0.25-0.5): no borehole inside it, also for the perimeter generator two_space_gen_bhc (ratios 0.6-1.0) and for both optimisers called with the zones right after the same sweep without them")
+             "shifted), spacings 5..25 m, rotations -90..89.5 deg, sweeps of 5/15 deg: termination (8 s CPU per call; a terminating call takes under 0.2 s), inside the outline (1e-6 m per metre of lot extent), spacing, rectangle lattice count, translation covariance, densest rotation; rectangles also typed in whole metres (integer arrays) and with two rectangular zones crossed by the same row in either listing order; in about a third of the cases a convex no-go zone (the outline shrunk about its centroid by 0.25-0.5): no borehole inside it, also for the perimeter generator two_space_gen_bhc (ratios 0.6-1.0) and for both optimisers called with the zones right after the same sweep without them")
 
 
 # ---- deductive part: the rotation sweep (field generator abstract) and leaf helpers ---------------------------------------------------------------
